@@ -155,7 +155,9 @@ def sample_stream(it, rnd, keep, stride_hint):
 ROLES_AMR = [':ARG0', ':ARG1', ':mod', ':op1', ':op2', ':op10', ':polarity',
              ':quant', ':location', ':ARG0-of', ':ARG1-of', ':location-of',
              ':consist-of', ':Mod', ':OP1', ':mod-of', ':domain-of', ':domain',
-             ':consist-of-of', ':prep-on-behalf-of']
+             ':consist-of-of', ':prep-on-behalf-of',
+             # role names with an inversion suffix inside the name, not only at its end
+             ':point-of-view', ':point-of-view-of', ':part-of-speech-of-of']
 
 
 def random_tree(rnd, maxn=6, maxd=4, roles=ROLES_AMR, concept_p=0.8,
@@ -173,15 +175,15 @@ def random_tree(rnd, maxn=6, maxd=4, roles=ROLES_AMR, concept_p=0.8,
         vars_.append(v)
         bs = []
         if rnd.random() < concept_p:
-            bs.append(('/', rnd.choice(concepts) + al(['', '', '~1', '~e.2,3'])))
+            bs.append(('/', rnd.choice(concepts) + al(['', '', '~1', '~e.2,3', '~e.4,3', '~3,1,2'])))
         for _ in range(rnd.randint(0, 3)):
-            r = rnd.choice(roles) + al(['', '', '~4', '~e.7'])
+            r = rnd.choice(roles) + al(['', '', '~4', '~e.7', '~e.7,2', '~5,5'])
             k = rnd.random()
             if k < 0.4 and d < maxd and len(vars_) < maxn:
                 bs.append((r, node(d + 1)))
             elif k < 0.6:
                 # references (also forward ones, to nodes defined later, when vars_ grows)
-                bs.append((r, rnd.choice(vars_ + [prefix + str(len(vars_))]) + al(['', '~5', '~e.1', '~v.2'])))
+                bs.append((r, rnd.choice(vars_ + [prefix + str(len(vars_))]) + al(['', '~5', '~e.1', '~v.2', '~e.9,8'])))
             else:
                 bs.append((r, rnd.choice(consts) + al(['', '~6'])))
         return (v, bs)
